@@ -6,6 +6,7 @@
 #include <unordered_map>
 #include <vector>
 #include <algorithm>
+#include <sys/mman.h>
 
 #if defined(__SANITIZE_ADDRESS__)
 #    define DSIM_ASAN 1
@@ -60,6 +61,28 @@ struct State {
 };
 static State S;
 
+// Blocks come from a private arena that is reset for every run, so that addresses handed to the library - which
+// some library paths hash or compare (memtrace's address table, the small-block allocator's page arithmetic) - do not
+// depend on what ran earlier in the same process.
+static uint8_t *g_arena = nullptr;
+static const size_t ARENA_SIZE = (size_t)512 << 20;
+static size_t g_arena_used = 0, g_arena_high = 0;
+static Hdr *arena_block(size_t total) {
+    if (!g_arena) {
+        void *m = mmap(nullptr, ARENA_SIZE, PROT_READ | PROT_WRITE, MAP_PRIVATE | MAP_ANONYMOUS | MAP_NORESERVE, -1, 0);
+        if (m == MAP_FAILED) return nullptr;
+        g_arena = (uint8_t *)m;
+    }
+    total = (total + 15) & ~(size_t)15;
+    if (g_arena_used + total > ARENA_SIZE) return nullptr;
+    Hdr *h = (Hdr *)(g_arena + g_arena_used);
+    g_arena_used += total;
+    if (g_arena_used > g_arena_high) g_arena_high = g_arena_used;
+    UNPOISON(h, total);
+    return h;
+}
+static bool in_arena(const void *p) { return g_arena && (const uint8_t *)p >= g_arena && (const uint8_t *)p < g_arena + ARENA_SIZE; }
+
 static size_t class_of(size_t n) { return (n + 15) & ~(size_t)15; }
 
 static void check_block(Hdr *h, const char *where) {
@@ -97,10 +120,13 @@ static void *do_acquire(size_t size) {
             carved = true;
             sim::probe("large_block_placed_in_recycled_page");
         } else {
-            h = (Hdr *)malloc(sizeof(Hdr) + GUARD + cap + GUARD);
-            if (!h) { fprintf(stderr, "dsim: out of real memory\n"); _Exit(2); }
+            h = arena_block(sizeof(Hdr) + GUARD + cap + GUARD);
+            if (!h) {
+                h = (Hdr *)malloc(sizeof(Hdr) + GUARD + cap + GUARD);
+                if (!h) { fprintf(stderr, "dsim: out of real memory\n"); _Exit(2); }
+                S.all.push_back(h);
+            }
             h->cap = cap;
-            S.all.push_back(h);
         }
     }
     h->magic = MAGIC_LIVE;
@@ -179,6 +205,12 @@ struct aws_allocator *create(const Config &cfg) {
         free(h);
     }
     S.all.clear();
+    if (g_arena && g_arena_high) {
+        UNPOISON(g_arena, g_arena_high);
+        memset(g_arena, 0xEE, g_arena_high); // nothing of an earlier run can be read back
+        POISON(g_arena, g_arena_high);
+    }
+    g_arena_used = g_arena_high = 0;
     S.live.clear();
     S.freelists.clear();
     S.cfg = cfg;
